@@ -248,6 +248,22 @@ def trunc(x):
     return np.trunc(x)
 
 
+def _rti(mode, real):
+    def f(x, *a, **k):
+        if isinstance(x, SFloat):
+            if a or k:
+                raise Unmodelled("np.%s with extra arguments on a symbolic float" % real.__name__)
+            return SFloat(z3.fpRoundToIntegral(mode, x.e), x.kind if x.kind != "py" else "f64")
+        return real(x, *a, **k)
+    return f
+
+
+np_round = _rti(RNE, np.round)   # NumPy rounds half to even
+np_rint = _rti(RNE, np.rint)
+np_floor = _rti(z3.RTN(), np.floor)
+np_ceil = _rti(z3.RTP(), np.ceil)
+
+
 def sfloat(x=0.0):
     """float(x): exact widening to a Python float (binary64)"""
     if isinstance(x, SFloat):
@@ -271,6 +287,11 @@ class _SNumpy:
     """numpy stand-in for numeric_util (trunc on proxies); everything else is the real numpy"""
 
     trunc = staticmethod(trunc)
+    round = staticmethod(np_round)
+    around = staticmethod(np_round)
+    rint = staticmethod(np_rint)
+    floor = staticmethod(np_floor)
+    ceil = staticmethod(np_ceil)
 
     def __getattr__(self, n):
         return getattr(np, n)
